@@ -288,7 +288,7 @@ def r03c(R):
                 'a loop overwrites the hidden global instead)' % (field, field))
 
 
-@rule('R03.d', ('C03',), 'the parameter container being filled is not on the '
+@rule('R03.d', ('C03', 'C02'), 'the parameter container being filled is not on the '
       'variable lookup chain before the call is entered', floor=2,
       decides='arguments are evaluated in the caller\'s scope, unaffected by '
               'the names of the callee\'s parameters')
